@@ -24,8 +24,10 @@ func caseRng(seed uint64, family string, idx int) *rng {
 	for _, c := range []byte(family) {
 		h = (h ^ uint64(c)) * 0x100000001b3
 	}
-	r := &rng{s: h + uint64(idx)*0x9e3779b97f4a7c15}
-	r.next()
+	// the per-case state is a hash of (family hash, index): consecutive indices must not be
+	// consecutive states of one stream (they would produce shifted copies of the same choices)
+	m := &rng{s: h ^ (uint64(idx)+1)*0xd1b54a32d192ed03}
+	r := &rng{s: m.next() ^ (m.next() << 1)}
 	r.next()
 	return r
 }
